@@ -207,6 +207,59 @@ def mpo_case(ctx, idx, rng):
     orth_post(ctx, old, op, nrm, mode, True)
 
 
+EXPS = [0, 0, 0, 140, -140, 300, -300, 560, -560, 830, -830]          # binary exponents: 2**830 ~ 7e249, 2**-560 ~ 3e-169
+
+
+def sweep_exponents(rng, L, mode, limit=930):
+    """Per-site binary exponents whose running sums in sweep direction (the scale carried by the R factor) and total stay representable."""
+    for _ in range(200):
+        k = [int(rng.choice(EXPS)) for _ in range(L)]
+        run = np.cumsum(k if mode == 'left' else k[::-1])
+        if np.all(np.abs(run) <= limit) and any(k):
+            return k
+    k = [0] * L
+    k[int(rng.integers(0, L))] = int(rng.choice([-560, 560, -830, 830]))
+    return k
+
+
+def extreme_scale_case(ctx, idx, rng):
+    """Tensors scaled by exact powers of two between 2**-830 and 2**830 (single tiny / huge tensors, compensating pairs, everything tiny):
+    every intermediate of the sweep is representable, so the claims must hold exactly as for the unscaled object, whose dense form
+    (times the exactly known power of two) is the reference."""
+    is_mpo = idx % 3 == 2
+    mode = ('left', 'right')[(idx // 3) % 2]
+    kind = ('complex', 'real', 'mixed')[(idx // 6) % 3]
+    layout = LAYOUTS[(idx // 2) % len(LAYOUTS)]
+    if is_mpo:
+        L = int(rng.integers(1, 5)); d = int(rng.choice([1, 2, 3]))
+        while d ** (2 * L) > 4096:
+            L -= 1
+        obj = gen.rand_mpo(rng, _qd(rng, d, layout), L, Dmax=4, kind=kind)
+    else:
+        L = int(rng.integers(1, 7)); d = int(rng.choice([1, 2, 3, 4]))
+        while d ** L > 4096:
+            L -= 1
+        prof = str(rng.choice(['random', 'max', 'over', 'one']))
+        obj = gen.rand_mps(rng, _qd(rng, d, layout), L, prof, Dmax=5, kind=kind, q0=int(rng.integers(-1, 2)))
+    if rng.random() < 0.3:
+        add_structure(rng, obj, is_mpo, str(rng.choice(['dead', 'dup', 'sparse'])))
+    old = snapshot(obj, is_mpo)
+    zero = np.linalg.norm(old['dense']) == 0
+    ks = sweep_exponents(rng, L, mode)
+    K = int(sum(ks))
+    for i, k in enumerate(ks):
+        obj.A[i] = np.ldexp(obj.A[i].real, k) + (1j * np.ldexp(obj.A[i].imag, k) if np.iscomplexobj(obj.A[i]) else 0) if k else obj.A[i]
+    cls = 'compensated' if K == 0 else ('tiny' if K < 0 else 'huge')
+    ctx.case(('extreme', 'mpo' if is_mpo else 'mps', f'L{min(L, 3)}', cls, f'|K|>{min(abs(K) // 280 * 280, 560)}', mode, kind, 'zero' if zero else 'nonzero'), nontrivial=not zero,
+             sample={'binary_exponents': ks, 'mode': mode, 'qd': obj.qd, 'qD': obj.qD}, info={'qd': old['qd'], 'qD': old['qD'], 'A(unscaled)': old['A'], 'binary_exponents': ks, 'mode': mode})
+    nrm = obj.orthonormalize(mode)
+    tag = 'mpo' if is_mpo else 'mps'
+    if not ctx.ok(f'{tag}.factor-real-finite', isinstance(nrm, (int, float, np.floating, np.integer)) and bool(np.isfinite(nrm)),
+                  f'returned factor {nrm!r} is not a finite real number (tensor scales 2**{ks})', {'binary_exponents': ks, 'mode': mode}):
+        return
+    orth_post(ctx, old, obj, np.ldexp(float(nrm), -K), mode, is_mpo)
+
+
 def sequence_case(ctx, idx, rng):
     """The same object orthonormalised repeatedly with edits in between (tensor replaced, scaled in place, compressed, evolved): every call
     must again return the norm of the object as it is at that moment."""
@@ -302,6 +355,69 @@ def large_case(ctx, idx, rng):
     ctx.ok('large.boundary-charges-kept', np.array_equal(psi.qD[0], ends[0]) and np.array_equal(psi.qD[-1], ends[1]), 'boundary charges changed', detail)
 
 
+def long_chain_case(ctx, idx, rng):
+    """Chains of 40..320 sites with un-normalised random tensors: the norm drifts by hundreds of binary orders of magnitude along the chain
+    (towards under- or overflow) while staying representable; reference norms and probe overlaps in mantissa/exponent form."""
+    L = int(rng.choice([40, 80, 160, 240, 320]))
+    d = int(rng.choice([2, 3]))
+    Dmax = int(rng.choice([2, 4, 8]))
+    layout = str(rng.choice(['zero', 'unsorted', 'pairs']))
+    qd = _qd(rng, d, layout)
+    kind = str(rng.choice(['complex', 'real']))
+    psi = gen.rand_mps(rng, qd, L, 'random', Dmax=Dmax, kind=kind, q0=int(rng.integers(-1, 2)))
+    # per-site gain: drift of the norm along the chain (2**-3 .. 2**3 per site -> up to 2**+-960 in total, clipped to the representable range)
+    g = int(rng.integers(-3, 4))
+    gains = [g] * L
+    m2, e2 = refs.mps_overlap_log(psi.A, psi.A)
+    if m2 == 0:
+        psi = gen.rand_mps(rng, np.zeros(d, dtype=int), L, 'random', Dmax=Dmax, kind=kind)
+        m2, e2 = refs.mps_overlap_log(psi.A, psi.A)
+    # choose the total gain so that log2(norm) lands in [-900, 900]
+    base = (e2 + np.log2(abs(m2))) / 2
+    target = float(rng.choice([-900, -600, -300, 0, 300, 600, 900]))
+    tot = int(round(target - base))
+    per, rest = divmod(tot, L) if tot >= 0 else (-((-tot) // L), -((-tot) % L))
+    gains = [per + (int(np.sign(rest)) if i < abs(rest) else 0) for i in range(L)]
+    for i, k in enumerate(gains):
+        if k:
+            psi.A[i] = np.ldexp(psi.A[i].real, k) + (1j * np.ldexp(psi.A[i].imag, k) if np.iscomplexobj(psi.A[i]) else 0)
+    mode = ('left', 'right')[idx % 2]
+    A_old = [np.array(a, dtype=complex) for a in psi.A]
+    D_old = list(psi.bond_dims)
+    m2, e2 = refs.mps_overlap_log(A_old, A_old)
+    log2n0 = (e2 + np.log2(abs(m2))) / 2
+    ctx.case(('long-chain', f'L{L}', f'd{d}', f'D{Dmax}', layout, kind, mode, f'log2norm~{int(round(log2n0 / 300)) * 300}'),
+             sample={'L': L, 'd': d, 'Dmax': Dmax, 'mode': mode, 'log2_norm': log2n0})
+    detail = {'L': L, 'd': d, 'qd': qd, 'bond_dims': D_old, 'mode': mode, 'log2_norm': log2n0, 'per_site_binary_gain': sorted(set(gains))}
+    ends = (psi.qD[0].copy(), psi.qD[-1].copy())
+    nrm = psi.orthonormalize(mode)
+    inv = refs.mps_invariant(psi)
+    if not ctx.ok('long.block-sparse-after', inv is None, str(inv), detail):
+        return
+    if not ctx.ok('long.factor-real-finite', isinstance(nrm, (float, np.floating)) and bool(np.isfinite(nrm)) and nrm > 0, f'factor {nrm!r} for a state of norm 2**{log2n0:.1f}', detail):
+        return
+    ctx.close('long.factor-equals-norm', abs(np.log2(float(nrm)) - log2n0), 1e-7, f'log2(factor) {np.log2(float(nrm))} != log2(norm) {log2n0}', detail)
+    m1, e1 = refs.mps_overlap_log(psi.A, psi.A)
+    ctx.close('long.unit-norm-after', abs(np.sqrt(abs(m1)) * 2.0 ** (e1 / 2) - 1), 1e-8, 'norm after orthonormalize != 1', detail)
+    worst = 0.0
+    for A in psi.A:
+        M = A.reshape(-1, A.shape[2]) if mode == 'left' else A.transpose(0, 2, 1).reshape(-1, A.shape[1])
+        worst = max(worst, float(np.linalg.norm(M.conj().T @ M - np.identity(M.shape[1]))) / max(1.0, np.sqrt(M.shape[1])))
+    ctx.close('long.site-isometries', worst, 1e-9, f'a site tensor is not an isometry in direction {mode}', detail)
+    # same ray: |<old|new>| = |old| |new|, with the overlap in mantissa/exponent form; phase: <old|new> real positive (factor > 0)
+    mo, eo = refs.mps_overlap_log(A_old, psi.A)
+    ratio = abs(mo) * 2.0 ** (eo - log2n0 - (e1 + np.log2(abs(m1))) / 2) if mo != 0 else 0.0
+    ctx.close('long.same-ray', abs(ratio - 1), 1e-7, f'|<old|new>| / (|old||new|) = {ratio}', detail)
+    ctx.close('long.same-phase', abs(np.angle(mo)) if mo != 0 else np.pi, 1e-7, 'factor * new has a different phase than old', detail)
+    D = list(psi.bond_dims)
+    if mode == 'left':
+        okb = all(D[i + 1] <= min(d * D[i], D_old[i + 1]) for i in range(L))
+    else:
+        okb = all(D[i] <= min(d * D[i + 1], D_old[i]) for i in range(L))
+    ctx.ok('long.bond-dims-bounded', okb, f'bond dims {D_old} -> {D}', detail)
+    ctx.ok('long.boundary-charges-kept', np.array_equal(psi.qD[0], ends[0]) and np.array_equal(psi.qD[-1], ends[1]), 'boundary charges changed', detail)
+
+
 def insitu_case(ctx, idx, rng):
     """orthonormalize as called by compress, TDVP and DMRG on their own data."""
     def around(orig, self, mode='left'):
@@ -346,7 +462,9 @@ SPEC = {
         Workload('mps', mps_case, quick=2400, thorough=400000),
         Workload('mpo', mpo_case, quick=1000, thorough=150000),
         Workload('sequence', sequence_case, quick=600, thorough=60000),
+        Workload('extreme-scales', extreme_scale_case, quick=600, thorough=60000),
         Workload('large', large_case, quick=60, thorough=6000),
+        Workload('long-chain', long_chain_case, quick=40, thorough=3000),
         Workload('insitu', insitu_case, quick=80, thorough=10000),
     ],
     'shards': {'quick': 1, 'thorough': 16},
